@@ -31,6 +31,8 @@ var c06Corpus = []corpusCase{
 	{"malformed-root-wrong-shape", FedInput{Spec: FixedFed(), StoreSeed: 5, Query: `{ allUsers { firstName lastName } }`, Faults: []FaultSpec{{Service: "A", MatchID: "root", Kind: "wrong-shape"}}}, ""},
 	{"nested-follow-ups-under-list-40", FedInput{Spec: FixedFed(), StoreSeed: 5, Query: `{ allUsers { photos { likes likedBy { firstName } } } }`, ListLen: 40, ListOnly: []string{"u1", "u3"}, Barrier: 31}, "three plan levels: follow-ups of follow-ups under a long list (any limit on simultaneous steps must not be held while waiting for children)"},
 	{"nested-follow-ups-under-list-150", FedInput{Spec: FixedFed(), StoreSeed: 5, Query: `{ allUsers { lastName photos { url likes owner { nick } } } }`, ListLen: 150, Barrier: 30}, ""},
+	{"cancelled-during-root-call", FedInput{Spec: FixedFed(), StoreSeed: 5, Query: `{ allUsers { firstName lastName } }`, ListLen: 12, CancelAtCall: 1}, "the request context ends while the first call is under way: no call may outlive Execute"},
+	{"cancelled-during-follow-up", FedInput{Spec: FixedFed(), StoreSeed: 5, Query: `{ allUsers { firstName lastName photos { likes } } }`, ListLen: 25, CancelAtCall: 3}, ""},
 	{"nested-follow-ups-under-list-failing", FedInput{Spec: FixedFed(), StoreSeed: 5, Query: `{ allUsers { photos { likes } } }`, ListLen: 64, Barrier: 32,
 		Faults: []FaultSpec{{Service: "C", From: 3, Count: 40, Kind: "transport"}}}, ""},
 	{"root-failure", FedInput{Spec: FixedFed(), StoreSeed: 5, Query: `{ allUsers { firstName lastName } }`, Faults: []FaultSpec{{Service: "A", From: 0, Count: 1, Kind: "transport"}}}, ""},
@@ -47,7 +49,7 @@ func (c06) Cases(tier string) int {
 }
 
 func (c06) Rule() string {
-	return "corpus (12/120 simultaneous failing dependent calls, fan-out 300), then random federations x random queries x list fan-out 0-300 x fault assignments (0..all dependent calls failing with transport errors / error lists, released together through a barrier; a root call answering with a malformed payload: wrong shape, empty, or an otherwise correct answer malformed at the position a dependent step joins); checked: Execute returns under a 20 s watchdog, no service call is in flight at return, the goroutine count settles back, the response does not change after return, the error list has one entry per injected error; non-trivial = at least 3 service calls; distinct = distinct (federation, query, fan-out, fault spec)"
+	return "corpus (12/120 simultaneous failing dependent calls, fan-out 300), then random federations x random queries x list fan-out 0-300 x fault assignments (0..all dependent calls failing with transport errors / error lists, released together through a barrier; a quarter of the cases under a request context that is cancelled while the n-th service call is under way; a root call answering with a malformed payload: wrong shape, empty, or an otherwise correct answer malformed at the position a dependent step joins); checked: Execute returns under a 20 s watchdog, no service call is in flight at return, the goroutine count settles back, the response does not change after return, the error list has one entry per injected error; non-trivial = at least 3 service calls; distinct = distinct (federation, query, fan-out, fault spec)"
 }
 
 // Run repeats a case: whether the collector's `select` picks the result or the error queue is a coin flip
@@ -125,10 +127,15 @@ func (c06) once(c *Ctx, i int, rep int) CaseResult {
 			in.Faults = append(in.Faults, FaultSpec{Service: site[0].(string), MatchID: "root", Kind: kind, Path: site[1].([]string)})
 			feats["malformed:"+kind] = true
 		}
+		if r.Intn(4) == 0 {
+			// the client goes away while calls are under way: Execute may give up, but not before its calls are over
+			in.CancelAtCall = 1 + r.Intn(4)
+			feats["cancelled-mid-flight"] = true
+		}
 		feats[fmt.Sprintf("fanout-%d", in.ListLen)] = true
 		id = fmt.Sprintf("gen:%d", i)
 	}
-	res := CaseResult{ID: id, Key: fmt.Sprint(in.Spec.SDLs, in.Query, in.ListLen, in.Faults, in.Barrier)}
+	res := CaseResult{ID: id, Key: fmt.Sprint(in.Spec.SDLs, in.Query, in.ListLen, in.Faults, in.Barrier, in.CancelAtCall)}
 	before := runtime.NumGoroutine()
 	var rec *TraceRec
 	var opts []gateway.Option
